@@ -363,6 +363,7 @@ def units(tier, seed):
     for m, n, entries in pspace_patterns(tier):
         us.append(unit_pspace_call(m, n, entries))
     us.append(unit_dispatch())
+    us.append(C10.unit_simplex_bounded())
     us.append(C10.unit_canary())
     return us
 
@@ -408,5 +409,8 @@ def replay_pspace(ob):
 def replay(ob):
     if ob.get('unit', '').startswith('pspace/'):
         return replay_pspace(ob)
+    if ob.get('unit', '').startswith('simplex/'):
+        from contracts.props import C10
+        return C10.replay(ob)
     from contracts import replay_forms
     return replay_forms.replay(ob)
